@@ -204,6 +204,13 @@ def gen(kind, box, gens, other=None):
             return g.getVerilogForHierarchy()
         if kind == 'S':                       # caller-supplied createdStructures list
             return py4hw.VerilogGenerator(box).getVerilogForHierarchy(createdStructures=[])
+        if kind == 'L':                       # the SAME generator object with a list the caller keeps (as a platform flow sharing it does)
+            g = gens.setdefault('g', py4hw.VerilogGenerator(box))
+            lst = gens.setdefault('L', [])
+            first = not lst
+            t = g.getVerilogForHierarchy(createdStructures=lst)
+            gens['L_snapshot'] = list(lst)
+            return t if first else None
         if kind == 'M':                       # single module
             py4hw.VerilogGenerator(box).getVerilog()
             return None
@@ -345,6 +352,9 @@ def seq_task(p, cfg, rec):
             p.structural('request %d (%s) completes' % (k, kind), False, detail={'exception': repr(e)})
             continue
         p.structural('object graph and block attributes unchanged by request %d (%s)' % (k, kind), graph_snapshot(s) == g0)
+        if 'L' in gens and kind != 'L':
+            p.structural('the list a caller supplied earlier is left alone by request %d (%s), which was not given it' % (k, kind),
+                         gens['L'] == gens['L_snapshot'], detail={'list after the request that filled it': gens['L_snapshot'], 'list now': list(gens['L'])})
         if t is not None:
             texts.append((k, kind, t))
         p.res['programs'] += 1
@@ -412,7 +422,7 @@ def ancestor_task(p, cfg, rec):
 def tasks_for(tier):
     quick = tier == 'quick'
     seqs = [['H', 'H'], ['h', 'h'], ['H', 'M', 'H'], ['H', 'O', 'H'], ['S', 'H'], ['H', '2', 'H'], ['M', 'H', 'h'],
-            ['c', 'h'], ['p', 'h'], ['m', 'h'], ['h', 'p', 'h'], ['h', 'c', 'S']]
+            ['c', 'h'], ['p', 'h'], ['m', 'h'], ['h', 'p', 'h'], ['h', 'c', 'S'], ['L', 'h'], ['L', 'c', 'L', 'm'], ['L', 'p', 'H']]
     if not quick:
         seqs += [['h', 'O', 'h'], ['H', '1', 'h', '3', 'H'], ['S', 'S'], ['O', 'H', 'O', 'h'], ['M', 'M', 'H'], ['H', 'S', 'h']]
     t = []
@@ -446,7 +456,7 @@ def main(argv=None):
     return common.run_check(
         PROP, 'translation_validation', tasks_for(args.tier), args, design_ref='DESIGN.md section 3 (C19)',
         technique='SMT equivalence (z3 QF_BV): terms of one symbolic clock step before vs after generation; every returned text elaborated (E2) and proved equivalent to the first text for the circuit',
-        assumptions=['request kinds: H whole hierarchy with a fresh generator, h same generator object, S caller-supplied createdStructures, M single module (fresh generator), m/c/p the same generator object asked for the single top module / a child module / the hierarchy of a child, O generation for another circuit, digits = clk(n) in between; every text is compared with a reference generated by a fresh generator before the sequence',
+        assumptions=['request kinds: H whole hierarchy with a fresh generator, h same generator object, S caller-supplied createdStructures (fresh generator, throw-away list), L the same generator given a list the caller keeps (that list must only change in requests that are given it), M single module (fresh generator), m/c/p the same generator object asked for the single top module / a child module / the hierarchy of a child, O generation for another circuit, digits = clk(n) in between; every text is compared with a reference generated by a fresh generator before the sequence',
                      'two-state Verilog semantics (see C01)'],
         bounds={'designs': sorted(DESIGNS), 'sequences': 'up to 3 generation requests (5 items) per sequence', 'sub-blocks': '3 sub-blocks x 4 ancestors',
                 'corpus': 'every block class of the C01 corpus at least once plus a 1/8 (thorough 1/2) sample of its other configurations, requests H H; Div/Mod excluded (arbitrary result for a zero divisor)',
